@@ -1,4 +1,5 @@
 import Clikit.Model.Resolver
+import Clikit.Model.AliasCfg
 import Clikit.Lemmas.Resolver
 /-!
 # C03 - the resolver selects the deepest command named by the leading tokens
@@ -403,5 +404,50 @@ example : pickDefault cvN [] [] [strictC, listC] none = .ok (some (["list".toLis
 example : pickDefault cvN ["x".toList, "y".toList] [] [strictC, listC] none = .ok (some (["strict".toList], none)) :=
   pickDefault_none_parsable cvN ["x".toList, "y".toList] [] [strictC, listC] none
     (by intro x hx; simp at hx; rcases hx with hx | hx <;> subst hx <;> rfl)
+
+/-! ## The aliases a command is configured with (`Model/AliasCfg.lean`)
+
+The tree the resolver walks is the tree *as configured per command*.  The configuration calls
+(`add_alias`, `add_aliases`, `set_aliases`) receive lists the caller owns and may share between
+commands or change later; with the value semantics of the model none of that reaches a command
+that was configured before. -/
+section AliasCfg
+
+/-- **A configuration call made on another command, or a change the caller makes to a list it
+owns, never changes the aliases a command is configured with.** -/
+theorem aliases_frame (s : AliasCfg.St) (op : AliasCfg.Op) (c : Nat) (h : op.target ≠ some c) :
+    (AliasCfg.step s op).cmds c = s.cmds c := by
+  cases op <;> simp [AliasCfg.Op.target] at h <;> simp [AliasCfg.step, AliasCfg.upd] <;> intro e <;> exact absurd e.symm h
+
+theorem aliases_frame_run (ops : List AliasCfg.Op) (s : AliasCfg.St) (c : Nat) (h : ∀ op ∈ ops, op.target ≠ some c) :
+    (AliasCfg.run s ops).cmds c = s.cmds c := by
+  induction ops generalizing s with
+  | nil => rfl
+  | cons op r ih =>
+    simp only [AliasCfg.run, List.foldl_cons]
+    have := ih (AliasCfg.step s op) (fun o ho => h o (by simp [ho]))
+    simp only [AliasCfg.run] at this
+    rw [this, aliases_frame s op c (h op (by simp))]
+
+/-- `set_aliases(list)` configures what the list holds when the call is made: whatever is done
+afterwards to other commands (the same list handed to them, additions to them) or to the list
+itself, the command keeps exactly that. -/
+theorem set_list_keeps (s : AliasCfg.St) (c k : Nat) (later : List AliasCfg.Op) (h : ∀ op ∈ later, op.target ≠ some c) :
+    (AliasCfg.run (AliasCfg.step s (.setList c k)) later).cmds c = s.lists k := by
+  rw [aliases_frame_run later _ c h]; simp [AliasCfg.step, AliasCfg.upd]
+
+/-- the same for `b.set_aliases(a.aliases)`, whatever is done to `a` afterwards -/
+theorem set_from_keeps (s : AliasCfg.St) (c d : Nat) (later : List AliasCfg.Op) (h : ∀ op ∈ later, op.target ≠ some c) :
+    (AliasCfg.run (AliasCfg.step s (.setFrom c d)) later).cmds c = s.cmds d := by
+  rw [aliases_frame_run later _ c h]; simp [AliasCfg.step, AliasCfg.upd]
+
+/-- Two commands given the same list object, then one more alias for one of them: the other one
+does not get it. -/
+theorem shared_list_siblings (s : AliasCfg.St) (a b k : Nat) (hab : a ≠ b) (x : Str) :
+    (AliasCfg.run s [.setList a k, .setList b k, .add b x]).cmds a = s.lists k ∧
+    (AliasCfg.run s [.setList a k, .setList b k, .add b x]).cmds b = s.lists k ++ [x] := by
+  simp [AliasCfg.run, AliasCfg.step, AliasCfg.upd, hab]
+
+end AliasCfg
 
 end Clikit.Props.C03
